@@ -246,11 +246,25 @@ func genPathRec(rt *rapid.T, tk *tokens, item int) kenc.Rec {
 	f = append(f, kenc.P("inode", tk.num()), kenc.P("dev", "fd:"+tk.num()), kenc.P("mode", fmt.Sprintf("%#o", mode)),
 		kenc.P("ouid", tk.num()), kenc.P("ogid", tk.num()), kenc.P("rdev", "00:"+tk.num()))
 	if rapid.Bool().Draw(rt, "obj") {
-		f = append(f, kenc.P("obj", tk.s("ou")+":"+tk.s("or")+":"+tk.s("ot")+":"+tk.s("ol")))
+		f = append(f, kenc.P("obj", tk.s("ou")+":"+tk.s("or")+":"+tk.s("ot")+":"+tk.s("ol")+mlsTail(rt, tk)))
 	}
 	f = append(f, kenc.P("nametype", rapid.SampledFrom([]string{"NORMAL", "PARENT", "PARENT", "CREATE", "DELETE", "UNKNOWN", "NORMAL"}).Draw(rt, "nametype")),
 		kenc.P("cap_fp", tk.num()), kenc.P("cap_fi", tk.num()))
 	return kenc.Rec{Type: recgen.PATH, Fields: f}
+}
+
+// mlsTail: an MLS range with categories on both levels has colons of its own (s1:c0-s2:c0.c5): a context of six
+// or seven parts, or of fewer than the usual ones
+func mlsTail(rt *rapid.T, tk *tokens) string {
+	switch rapid.IntRange(0, 5).Draw(rt, "mlstail") {
+	case 0:
+		return "-" + tk.s("s") + ":" + tk.s("c")
+	case 1:
+		return ":" + tk.s("c") + "-" + tk.s("s") + ":" + tk.s("c") + "." + tk.s("c")
+	case 2:
+		return ":"
+	}
+	return ""
 }
 
 // long pads a value, now and then, to a length around a power of two (the kernel cuts a process title at 128
@@ -482,7 +496,7 @@ func genC09(rt *rapid.T) C09Case {
 				if i >= 4 && rapid.IntRange(0, 4).Draw(rt, "ownsubj") == 0 {
 					// its own security context (kernel records of a compound event usually repeat the task's;
 					// here it differs, so every label can be traced)
-					r.Fields = append(r.Fields, kenc.P("subj", tk.s("au")+":"+tk.s("ar")+":"+tk.s("at")+":"+tk.s("as")+":"+tk.s("ac")))
+					r.Fields = append(r.Fields, kenc.P("subj", tk.s("au")+":"+tk.s("ar")+":"+tk.s("at")+":"+tk.s("as")+":"+tk.s("ac")+mlsTail(rt, tk)))
 				}
 				if i >= 4 && rapid.IntRange(0, 3).Draw(rt, "syscallkey") == 0 {
 					// a field named like one of the SYSCALL record's own (only the SYSCALL record's item count
